@@ -118,6 +118,10 @@ def e1_ops(n):
             ops.append({"op": name, "pred": p})
         for kv in KV_SETS:
             ops.append({"op": name, "kv": kv})
+        # a function AND key=value pairs in one call (the reference compares the pairs with .get: absent like None)
+        for p in ("a_eq_1", "a_is_none"):
+            for kv in ([["b", "x"]], [["b", None]], [["a", 1]]):
+                ops.append({"op": name, "pred": p, "kv": kv})
     for keys in SORT_KEYS:
         ops.append({"op": "sort", "keys": keys})
     for keys in KEY_SETS[:5]:
@@ -141,6 +145,7 @@ def e1_ops(n):
         ops.append({"op": "extend", "other": other, "as": "lod"})
         ops.append({"op": "add", "other": other, "as": "lod"})
     ops.append({"op": "extend", "other": [{"a": 1}, {"b": "x"}], "as": "iter"})
+    ops.append({"op": "extend", "other": [{"a": 1}, {"b": "x"}, {"a": 2}], "as": "mixed"})
     ops.append({"op": "extend", "other": "self", "as": "self"})
     ops.append({"op": "add", "other": "self", "as": "self"})
     for k in (-1, 0, 1, 2):
@@ -310,6 +315,11 @@ def build_args(op, d, objs, m):
             other = ListOfDicts([dict(t) for t in op["other"]])
             args["other"] = other
             args["other_entries"] = [(x, dict(x)) for x in list(other)]
+        elif form == "mixed":
+            # a plain list whose FIRST element is an attribute dict already and whose later elements are plain dicts
+            first = AttributeDict(op["other"][0])
+            args["other"] = [first] + [dict(t) for t in op["other"][1:]]
+            args["other_entries"] = [(None, dict(t)) for t in op["other"]]
         else:
             plain = [dict(t) for t in op["other"]]
             args["other"] = iter(plain) if form == "iter" else plain
@@ -321,6 +331,8 @@ def apply(d, op, args):
     o = op["op"]
     if o in ("filter", "filter_out"):
         f = d.filter if o == "filter" else d.filter_out
+        if "pred" in op and "kv" in op:
+            return f(R.PREDS[op["pred"]], **{k: v for k, v in op["kv"]})
         if "pred" in op:
             return f(R.PREDS[op["pred"]])
         return f(**{k: v for k, v in op["kv"]})
